@@ -71,6 +71,7 @@ pub fn tracked_accounts(w: &World) -> Vec<String> {
     let mut v: Vec<String> = WALLETS.iter().map(|s| s.to_string()).collect();
     v.push("owner".into());
     v.push("bank".into());
+    v.push("other_ifund".into());
     v.push(w.engine.to_string());
     v.push(w.ifund.to_string());
     v.push(w.fee_pool.to_string());
